@@ -3,8 +3,8 @@
    re-checked against it.  Nothing else lives here. *)
 From RV.Model Require Import Base Word Limbs Bytes DivRecip DivSmall Redc.
 From RV.Gen Require Import Prim Scalar.
-From RV.Model Require Add Mul.
-From RV.Proofs Require Import PfGenScalar PfGenAdd PfGenMul.
+From RV.Model Require Add Mul UDiv.
+From RV.Proofs Require Import PfGenScalar PfGenAdd PfGenMul PfGenDiv.
 
 Theorem GenTie_source_equals_model :
   (forall bits, 0 <= bits -> bits + 63 < B -> g_nlimbs bits = Val (nlimbs bits)) /\
@@ -134,6 +134,28 @@ Proof.
               (g_wrapping_mul_eq bits a b H0 HB Ha Hb Wa Wb))))).
 Qed.
 Print Assumptions GenTie_mul_rs.
+
+(* src/div.rs wrappers and Uint::is_zero; the slice kernel algorithms::div is Model/Div.v on both sides *)
+Theorem GenTie_div_rs : forall bits a b,
+  0 <= bits -> nlimbs bits <= B -> wfU bits a -> wfU bits b -> Forall inW a -> Forall inW b ->
+  g_is_zero bits (nlimbs bits) a = UDiv.is_zero bits a /\
+  g_div_rem bits (nlimbs bits) a b = UDiv.div_rem a b /\
+  g_wrapping_div bits (nlimbs bits) a b = UDiv.wrapping_div a b /\
+  g_wrapping_rem bits (nlimbs bits) a b = UDiv.wrapping_rem a b /\
+  g_checked_div bits (nlimbs bits) a b = UDiv.checked_div bits a b /\
+  g_checked_rem bits (nlimbs bits) a b = UDiv.checked_rem bits a b /\
+  g_div_ceil bits (nlimbs bits) a b = UDiv.div_ceil bits a b.
+Proof.
+  intros bits a b H0 HB Ha Hb Wa Wb. unfold wfU in *.
+  exact (conj (g_is_zero_eq bits _ a)
+        (conj (g_div_rem_eq bits _ a b)
+        (conj (g_wrapping_div_eq bits _ a b)
+        (conj (g_wrapping_rem_eq bits _ a b)
+        (conj (g_checked_div_eq bits _ a b)
+        (conj (g_checked_rem_eq bits _ a b)
+              (g_div_ceil_eq bits a b H0 HB Ha Hb Wa Wb))))))).
+Qed.
+Print Assumptions GenTie_div_rs.
 
 (* the premises are satisfiable and the generated code computes: reciprocal(2^63) = 2^64 - 1 *)
 Example GenTie_nonvacuous :
